@@ -143,6 +143,7 @@ def run(tier):
     try:
         from harness import c05skip
         c05skip.add(run, tier)
+        c05skip.add_keyword_texts(run, tier)
         run.functions.append('<Lexer>.tokenize with the live ignore_* rules (LEXZ3 translation of each rule; real lexer on every text)')
         run.assumptions.append('what a lexer may skip between tokens: blanks, `;`, `-- ..` to the end of the line, `/* .. */` to the first `*/` (reference written from the comment syntax); '
                                'z3 proposes members of each ignore rule outside that reference (<= 12 printable characters, 3 per rule), the real lexer decides on accepted statements + member, '
